@@ -14,7 +14,11 @@ ServerVariants(k) ==
 AckMutations == {"code+1", "code=0", "code=999", "flag-reply", "ver0", "ver2", "resv", "size-1", "size_field>max",
                  "body_short", "fds+1", "random", "silent"}
 F(f, b) == [t |-> "flag", f |-> f, b |-> b, k |-> 0, r |-> ""]
+\* the one body-less request the server serves (CONFIG_CHANGE_MSG = 2): only header mutations apply
+ConfigChangeVariants == {"flags.reply", "flags.ver0", "flags.ver2", "flags.resv", "size.long", "size.over", "nfds.1", "nfds.2"}
 Hostile ==
+    /\ \A v \in ConfigChangeVariants, hra \in BOOLEAN :
+          PrintT(<<"HCASE", ToJson([mode |-> "rawsrv", steps |-> <<F("hra", hra), [t |-> "req", k |-> 2, r |-> "zero", var |-> v]>>])>>)
     /\ \A k \in BeKinds : \A v \in ServerVariants(k), hra \in BOOLEAN :
           PrintT(<<"HCASE", ToJson([mode |-> "rawsrv", steps |-> <<F("hra", hra), [t |-> "req", k |-> k, r |-> "zero", var |-> v]>>])>>)
     /\ \A k \in BeKinds, p \in AckMutations :
